@@ -332,22 +332,30 @@ func ruleKeywordCase(c *Ctx, rule string) {
 	subjects := map[ssa.Value]bool{}
 	spell := map[string]bool{}
 	var tablePos token.Pos
+	// a value compared with at least 20 distinct string constants is the subject of the keyword switch
+	cmp := map[ssa.Value]map[string]bool{}
+	cmpPos := map[ssa.Value]token.Pos{}
 	for _, f := range fns {
 		instrsOf(f, func(in ssa.Instruction) {
 			switch x := in.(type) {
 			case *ssa.BinOp:
-				if k, ok := x.Y.(*ssa.Const); ok && x.Op == token.EQL && k.Value != nil && k.Value.Kind() == constant.String && constant.StringVal(k.Value) == "find" {
-					subjects[x.X] = true
-					tablePos = x.Pos()
+				if k, ok := x.Y.(*ssa.Const); ok && x.Op == token.EQL && k.Value != nil && k.Value.Kind() == constant.String {
+					if cmp[x.X] == nil {
+						cmp[x.X] = map[string]bool{}
+						cmpPos[x.X] = x.Pos()
+					}
+					cmp[x.X][constant.StringVal(k.Value)] = true
 				}
 			case *ssa.Lookup:
 				if ld, ok := x.X.(*ssa.UnOp); ok {
 					if g, ok := ld.X.(*ssa.Global); ok {
-						if keys := mapKeys(g); keys["find"] {
-							subjects[x.Index] = true
-							tablePos = x.Pos()
-							for k := range keys {
-								spell[k] = true
+						if mt, ok := deref(g.Type()).Underlying().(*types.Map); ok && types.Identical(mt.Elem(), tokT) {
+							if keys := mapKeys(g); len(keys) >= 20 {
+								subjects[x.Index] = true
+								tablePos = x.Pos()
+								for k := range keys {
+									spell[k] = true
+								}
 							}
 						}
 					}
@@ -355,14 +363,14 @@ func ruleKeywordCase(c *Ctx, rule string) {
 			}
 		})
 	}
-	for _, f := range fns {
-		instrsOf(f, func(in ssa.Instruction) {
-			if x, ok := in.(*ssa.BinOp); ok && x.Op == token.EQL && subjects[x.X] {
-				if k, ok := x.Y.(*ssa.Const); ok && k.Value != nil && k.Value.Kind() == constant.String {
-					spell[constant.StringVal(k.Value)] = true
-				}
+	for v, ks := range cmp {
+		if len(ks) >= 20 {
+			subjects[v] = true
+			tablePos = cmpPos[v]
+			for k := range ks {
+				spell[k] = true
 			}
-		})
+		}
 	}
 	usedLowered := len(subjects) > 0
 	for v := range subjects {
